@@ -119,7 +119,7 @@ class Engine(MatrixTheory, NumpyTheory, Evaluator):
         if d is not None:
             hyps.append(d)
         ob = Ob(name, kind, label, hyps, goal, line, self.cur.key)
-        want = getattr(self.cur, 'using', {}).get(label)
+        want = getattr(self.cur, 'using', {}).get(label) or getattr(self.cur, 'using', {}).get(label.split('.', 1)[-1] if label.startswith('loop') else label)
         if want:
             # `using`: positions of the named facts (plus every quantifier-free fact) among the hypotheses: the prover tries this subset first
             ob.using = [i_ for i_, h_ in enumerate(hyps) if getattr(h_, '_label', None) in want or not has_quant(h_)]
@@ -160,6 +160,13 @@ class Engine(MatrixTheory, NumpyTheory, Evaluator):
             lv, n = st.heap.fresh_list(t[1], base)
             st.assume(n >= 0)
             return VList(lv.ref, nd=(k == 'arr'))
+        if k == 'pairs':
+            keys, kn = st.heap.fresh_list('int', base + '.keys')
+            rv, cnt, lens = st.heap.fresh_rag(t[1], base)
+            q = z3.Int(fresh_name('q'))
+            st.assume(z3.And(kn >= 0, cnt == kn))
+            st.assume(z3.ForAll([q], z3.Implies(z3.And(q >= 0, q < cnt), lens[q] >= 0)))
+            return VAssoc(VList(keys.ref), rv, is_dict=False)
         if k == 'assoc':
             keys, kn = st.heap.fresh_list('int', base + '.keys')
             rv, cnt, lens = st.heap.fresh_rag(t[1], base)
@@ -330,6 +337,13 @@ class Engine(MatrixTheory, NumpyTheory, Evaluator):
                 if r is None:
                     raise Unsupported('ndarray dunder on non-row data')
                 return r
+            if f.kind == 'assocmethod' and f.name == 'append':
+                pr = args[0]
+                if f.self_val.is_dict or not (isinstance(pr, VTuple) and len(pr.items) == 2 and isinstance(pr.items[1], VList)):
+                    raise Unsupported('append on a dict / of a non (int, array) pair')
+                self.list_append(f.self_val.keys, VInt(as_int(pr.items[0])), st)
+                self.rag_append(f.self_val.vals, self.as_array(pr.items[1], st), st)
+                return VNone()
             if f.kind == 'assocmethod':
                 return f.self_val.vals if f.name == 'values' else f.self_val.keys
             if f.kind == 'matmethod':
@@ -477,7 +491,9 @@ class Engine(MatrixTheory, NumpyTheory, Evaluator):
         if k == 'slice':
             return isinstance(v, VSlice) and all(self.value_matches(x, y, st) for x, y in zip((v.start, v.stop, v.step), t[1:]))
         if k == 'assoc':
-            return isinstance(v, VAssoc)
+            return isinstance(v, VAssoc) and v.is_dict
+        if k == 'pairs':
+            return isinstance(v, VAssoc) and not v.is_dict
         if k in ('mat', 'flatmat', 'cube'):
             return isinstance(v, VMat) and v.flat == (k == 'flatmat') and st.heap.rags[v.ref].etype == t[1] and (v.depth is not None) == (k == 'cube')
         if k == 'rag':
@@ -1274,6 +1290,11 @@ class Engine(MatrixTheory, NumpyTheory, Evaluator):
                     rv, cnt, lens = st.heap.fresh_rag(t[1], tgt.id)
                     st.assume(cnt == 0)
                     val = rv
+                if t[0] == 'pairs':
+                    keys_ = st.heap.alloc_list('int', z3.IntVal(0), [z3.K(z3.IntSort(), z3.IntVal(0))])
+                    rv, cnt, lens = st.heap.fresh_rag(t[1], tgt.id)
+                    st.assume(cnt == 0)
+                    val = VAssoc(keys_, rv, is_dict=False)
                 if t[0] == 'blocks':
                     flat = st.heap.alloc_list(t[1], z3.IntVal(0), [z3.K(z3.IntSort(), self.default_of(s)) for s in leaf_sorts(t[1])])
                     o = st.heap.alloc_obj('<blocks>', {'flat': flat, 'count': VInt(0)})
@@ -1533,7 +1554,7 @@ class Engine(MatrixTheory, NumpyTheory, Evaluator):
                 if isinstance(cur, VAssoc):
                     # a dict extended inside the loop: arbitrary (well-formed) content at the loop head
                     et_ = st.heap.rags[cur.vals.ref].etype
-                    st.env[m] = self.fresh_value(('assoc', et_), m, st)
+                    st.env[m] = self.fresh_value(('assoc' if cur.is_dict else 'pairs', et_), m, st)
                 elif not isinstance(cur, (VRag, VBlocks, VList, VObj, type(None))) and not isinstance(cur, (VInt, VBool, VReal, VElem, VTuple, VSlice, VNone, VStr, VFunc, VRec)):
                     raise Unsupported('a value of kind %r is mutated in a loop: the engine cannot havoc it' % type(cur).__name__)
                 if isinstance(cur, VBlocks):
@@ -1575,7 +1596,13 @@ class Engine(MatrixTheory, NumpyTheory, Evaluator):
 
     def assume_invariant(self, st, lc):
         for lab, e in _inv(lc):
-            st.assume(self.spec_truth(e, st))
+            t_ = self.spec_truth(e, st)
+            try:
+                if getattr(t_, '_label', None) is None:
+                    t_._label = lab
+            except Exception:
+                pass
+            st.assume(t_)
 
     def run_loop(self, stmt, st, guard_fn, pre_body_fn, post_body_fn, extra_havoc=(), exit_fn=None, sync=None):
         """Generic cut-point treatment. guard_fn(state)->z3 Bool; pre_body_fn binds the loop variable;
